@@ -164,6 +164,10 @@ func (prop) Generate(rng *sim.Rng, tier string, runIndex int) driver.Scenario {
 				}
 			}
 		}
+		if rng.Intn(40) == 0 {
+			// the task ends in an operation on a nil channel: it blocks forever
+			ops = append(ops, Op{K: []string{"send", "recv"}[rng.Intn(2)], Ch: -1, Val: 9999})
+		}
 		sc.Tasks = append(sc.Tasks, ops)
 	}
 	sc.Cfg = genCfg(rng)
@@ -184,6 +188,11 @@ type opRec struct {
 	Sel       int  // select: index of the committed case, -1 = default
 	N         int  // len/cap result
 	Stray     string
+	// Parked: the tasks that were asleep on a condition variable or semaphore
+	// when this operation was invoked (layer A only; nil otherwise)
+	Parked map[int]bool
+	// Announced: unbuffered channels whose hand-off slot announced a waiting receiver at that moment
+	Announced map[int]bool
 }
 
 const magic = 0x5a5a5a5a5a5a5a5a
@@ -281,14 +290,38 @@ func (prop) Run(scx driver.Scenario, ch *sim.Choices, keep bool) *driver.Result 
 				op := &ops[i]
 				r := trecs[i]
 				r.Inv = s.Stamp()
+				if op.K == "select" && op.Default {
+					r.Parked = map[int]bool{}
+					r.Announced = map[int]bool{}
+					for ci := range chans {
+						if chanrt.ReceiverAnnounced(chans[ci]) {
+							r.Announced[ci] = true
+						}
+					}
+					for _, ot := range s.Tasks {
+						if st := ot.State(); st == sim.BlockedCond || st == sim.BlockedOther {
+							r.Parked[ot.ID] = true
+						}
+					}
+				}
 				s.Logf("  t%d op%d invoke %s [#%d]", t, i, op, r.Inv)
 				stop := false
 				switch op.K {
 				case "send":
+					if op.Ch < 0 {
+						chanrt.ChanSend(nil, encode(op.Val, 8), 8) // a nil channel: blocks forever
+						r.Stray = "a send on a nil channel returned"
+						break
+					}
 					es := sc.Chans[op.Ch].Elem
 					r.OK = chanrt.ChanSend(chans[op.Ch], encode(op.Val, es), es)
 					stop = !r.OK
 				case "recv":
+					if op.Ch < 0 {
+						chanrt.ChanRecv(nil, encode(0, 8), 8) // a nil channel: blocks forever
+						r.Stray = "a receive from a nil channel returned"
+						break
+					}
 					es := sc.Chans[op.Ch].Elem
 					buf := encode(0, es)
 					r.OK = chanrt.ChanRecv(chans[op.Ch], buf, es)
